@@ -23,6 +23,11 @@ Inductive case :=
 | CRun (bs : list backend) (ep_timeout : Z) (req : request) (fullcopy : bool)
        (outs : list (nat * soutcome)) (calls : list (list nat)) (plain_ids : list nat) (watchdog : bool)
        (plain shadowed : cres) (pregs sregs : list robs) (shs : list sobs)
+(* the same for an endpoint whose pipelines are SEQUENTIAL merges (later backends are called
+   with values propagated from earlier answers, and only while the answers are complete) *)
+| CSeqRun (bs : list backend) (ep_timeout : Z) (req : request) (fullcopy : bool)
+       (outs : list (nat * soutcome)) (calls : list (list nat)) (plain_ids : list nat) (watchdog : bool)
+       (plain shadowed : cres) (pregs sregs : list robs) (shs : list sobs)
 (* long history on ONE proxy: the client call number hist, made while the shadow calls of all
    hist earlier requests are still hung (never released); blocked = it did not return until
    the harness released the hung shadow calls; alarm = a harness watchdog fired *)
@@ -52,6 +57,40 @@ Definition check_hist (bs : list backend) (hist : nat) (blocked alarm : bool) (p
    end,
    negb blocked && cres_eqb plain shadowed).
 
+(* a sequential pipeline stops at the first backend that fails or answers incompletely: the
+   backends are called at most once, a called one never after an uncalled one *)
+Fixpoint prefix_calls (l : list nat) : bool :=
+  match l with
+  | [] => true
+  | 1 :: r => prefix_calls r
+  | 0 :: r => forallb (Nat.eqb 0) r
+  | _ => false
+  end.
+
+Definition check_run (seq : bool) (bs : list backend) (ep : Z) (req : request) (fullcopy : bool)
+    (outs : list (nat * soutcome)) (calls : list (list nat)) (plain_ids : list nat) (wd : bool)
+    (plain shadowed : cres) (pregs sregs : list robs) (shs : list sobs) : bool * bool :=
+      let B := shadow_new bs in
+      let T := match B with BShadowed _ _ t => t | _ => 0%Z end in
+      let n := List.length (shadow_of B) in
+      (negb wd &&
+       list_eqb nats_eqb calls (factory_calls B) && nats_eqb plain_ids (ids (regular_of B)) &&
+       nats_eqb (map ro_id sregs) (ids (regular_of B)) && (if seq then prefix_calls (map ro_calls sregs) else forallb (fun r => Nat.eqb (ro_calls r) 1) sregs) &&
+       nats_eqb (map so_id shs) (ids (shadow_of B)) &&
+       forallb (corr_shadow_b n T ep) shs &&
+       (* the model: the caller gets exactly what the regular proxy returns *)
+       match endpoint_call (fun _ _ _ => plain) bs 0 0%Z background req with
+       | Some (x, _) => cres_eqb x shadowed
+       | None => false
+       end &&
+       (* the call as a transition system, under the two extreme schedules *)
+       forallb (fun ls => match crun (fun _ _ => plain) (cinit req) ls with
+                          | Some s => opt_eqb cres_eqb (c_result s) (Some shadowed)
+                          | None => false end)
+               [[LClone; LSpawn; LShadow tt; LShadowCancel; LRegular];
+                [LClone; LSpawn; LRegular; LClientCancel; LShadow tt; LShadowCancel]],
+       spec_run_b bs req fullcopy outs plain shadowed pregs sregs shs).
+
 Definition check_case (c : case) : bool * bool :=
   match c with
   | CNew bs calls plain_ids pe se =>
@@ -60,20 +99,9 @@ Definition check_case (c : case) : bool * bool :=
        opt_eqb str_eqb se (new_error "no_backends" default_ferr bs),
        spec_new_b pe se)
   | CRun bs ep req fullcopy outs calls plain_ids wd plain shadowed pregs sregs shs =>
-      let B := shadow_new bs in
-      let T := match B with BShadowed _ _ t => t | _ => 0%Z end in
-      let n := List.length (shadow_of B) in
-      (negb wd &&
-       list_eqb nats_eqb calls (factory_calls B) && nats_eqb plain_ids (ids (regular_of B)) &&
-       nats_eqb (map ro_id sregs) (ids (regular_of B)) && forallb (fun r => Nat.eqb (ro_calls r) 1) sregs &&
-       nats_eqb (map so_id shs) (ids (shadow_of B)) &&
-       forallb (corr_shadow_b n T ep) shs &&
-       (* the model: the caller gets exactly what the regular proxy returns *)
-       match endpoint_call (fun _ _ _ => plain) bs 0 0%Z background req with
-       | Some (x, _) => cres_eqb x shadowed
-       | None => false
-       end,
-       spec_run_b bs req fullcopy outs plain shadowed pregs sregs shs)
+      check_run false bs ep req fullcopy outs calls plain_ids wd plain shadowed pregs sregs shs
+  | CSeqRun bs ep req fullcopy outs calls plain_ids wd plain shadowed pregs sregs shs =>
+      check_run true bs ep req fullcopy outs calls plain_ids wd plain shadowed pregs sregs shs
   | CHist bs hist blocked alarm plain shadowed => check_hist bs hist blocked alarm plain shadowed
   end.
 
